@@ -165,6 +165,16 @@ def _savorize_src(cname, ops):
         elif k == 'int_add':
             L += ['        if node.is_mapping() and node.has_attribute_type(%r, int):' % op[1],
                   '            node.set_attribute(%r, node.get_attribute(%r).get_value() + %d)' % (op[1], op[1], op[2])]
+        elif k == 'seq_to_attrs':
+            # an object written as a sequence [v1, v2, ..]: the items become the
+            # values of the named attributes (the item nodes are re-used)
+            L += ['        if node.is_sequence():',
+                  '            _items = node.seq_items()',
+                  '            if len(_items) != %d:' % len(op[1]),
+                  '                raise yatiml.SeasoningError("Expected %d items")' % len(op[1]),
+                  '            node.make_mapping()',
+                  '            for _n, _i in zip(%r, _items):' % list(op[1]),
+                  '                node.set_attribute(_n, _i.yaml_node)']
         elif k == 'raise_if_has':
             L += ['        if node.is_mapping() and node.has_attribute(%r):' % op[1],
                   '            raise yatiml.SeasoningError("attribute {%s} is not allowed in {0} or {this} context, 100%%")' % op[1]]
